@@ -7,11 +7,13 @@ initialised `lastNow`) is `zeroTime` = year 1 in Unix nanoseconds; `Time.Sub` is
 at ±292 years, which preserves the sign — only the sign of `next.Sub(zero)` is ever used).
 
 Two variants of `Wait` are modelled:
-* `Variant.fresh`  — the REPAIRED code (fixes/C04-fresh-clock-overdue.diff): a token that is not after the cached
-  reading is judged against a fresh `time.Now()`;
-* `Variant.cached` — the code as found: such a token is judged against the cached `lastNow`, which is refreshed
+* `Variant.fresh`  — the REPAIRED code (/repo commit 1006bde, fixes/C04-fresh-clock-overdue.diff): a token that is not after
+  the cached reading is judged against a fresh `time.Now()`;
+* `Variant.cached` — the code as it was found: such a token is judged against the cached `lastNow`, which is refreshed
   only when a token lies after it (DESIGN §7 row 3).
-`wait` = the repaired one; `waitOld` = the one found.
+`wait` = the repaired one (= the current source, `Bridge.Waiter.Wait_eq`); `waitOld` = the one found.
+Further down: one pass of the loop as a function (`iteration`), the effective `discard_overflow` of a pool
+(`effectiveDiscard`), and several instances on one shared schedule (`pstep`, `prun`, `poolEvents`).
 -/
 
 -- vocabulary used by the REGENERATED `Pandora/Gen/Waiter.lean` (keeps that file core-only)
